@@ -78,6 +78,20 @@ type position struct {
 	tmpl         func(tok string) string
 	unquotedOnly bool
 	needs        []string
+	v            string // a value that is valid at this position (compose.go splits it into pieces)
+}
+
+// listInfo / pairInfo describe a repeatable directive for the list-context
+// generator of compose.go: keyword, two valid values, several values per line.
+type listInfo struct {
+	kw, v, alt string
+	multi      bool
+}
+
+type pairInfo struct {
+	pre            string // "kw " or "" (vars items)
+	a1, b1, a2, b2 string
+	multi          bool
 }
 
 type slot struct {
@@ -90,6 +104,8 @@ type slot struct {
 	sp    []spelling // core spellings; sp[0] is the default
 	xsp   []spelling // extra spellings, used alone only (k = 1)
 	pos   []position // value positions for the lexical classes
+	lst   *listInfo  // set by list()
+	pair  *pairInfo  // set by list2()
 }
 
 func (s *slot) site() string {
@@ -187,20 +203,20 @@ func kwTmpl(kw string) func(string) string {
 // val: `kw VALUE`.
 func (g *grammar) val(blockID, name, kw, v string) *slot {
 	t := kwTmpl(kw)
-	return g.add(&slot{block: blockID, name: name, sp: valueSpellings(t, v), pos: []position{{name: "value", tmpl: t}}})
+	return g.add(&slot{block: blockID, name: name, sp: valueSpellings(t, v), pos: []position{{name: "value", tmpl: t, v: v}}})
 }
 
 // list: a repeatable directive `kw VALUE`; multi = several values per line.
 func (g *grammar) list(blockID, name, kw, v, alt string, multi bool) *slot {
 	t := kwTmpl(kw)
-	s := &slot{block: blockID, name: name, sp: valueSpellings(t, v)}
+	s := &slot{block: blockID, name: name, sp: valueSpellings(t, v), lst: &listInfo{kw: kw, v: v, alt: alt, multi: multi}}
 	s.sp = append(s.sp,
 		spelling{name: "repeat2", text: t(v) + "\n" + t(alt)},
 		spelling{name: "repeat2q", text: t(q(v)) + "\n" + t(q(alt))},
 	)
 	s.pos = []position{
-		{name: "solo", tmpl: t},
-		{name: "after-valid", tmpl: func(tok string) string { return t(v) + "\n" + t(tok) }},
+		{name: "solo", tmpl: t, v: v},
+		{name: "after-valid", tmpl: func(tok string) string { return t(v) + "\n" + t(tok) }, v: alt},
 	}
 	if multi {
 		id := vt.id(alt)
@@ -210,7 +226,7 @@ func (g *grammar) list(blockID, name, kw, v, alt string, multi bool) *slot {
 			spelling{name: "multi3mix", text: t(v + " " + q(alt) + " {$C19_" + id + "}")},
 			spelling{name: "multi-nl", text: t(v + "\n" + alt)},
 		)
-		s.pos = append(s.pos, position{name: "multi-second", tmpl: func(tok string) string { return t(v + " " + tok) }})
+		s.pos = append(s.pos, position{name: "multi-second", tmpl: func(tok string) string { return t(v + " " + tok) }, v: alt})
 	}
 	return g.add(s)
 }
@@ -223,7 +239,8 @@ func (g *grammar) list2(blockID, name, kw, a1, b1, a2, b2 string, multi bool) *s
 	}
 	ta := func(tok string) string { return pre + tok + " " + b1 }
 	tb := func(tok string) string { return pre + a1 + " " + tok }
-	s := &slot{block: blockID, name: name, sp: valueSpellings(ta, a1), xsp: valueSpellings(tb, b1)[1:]}
+	s := &slot{block: blockID, name: name, sp: valueSpellings(ta, a1), xsp: valueSpellings(tb, b1)[1:],
+		pair: &pairInfo{pre: pre, a1: a1, b1: b1, a2: a2, b2: b2, multi: multi}}
 	s.sp = append(s.sp, spelling{name: "repeat2", text: pre + a1 + " " + b1 + "\n" + pre + a2 + " " + b2})
 	if multi {
 		s.sp = append(s.sp,
@@ -232,10 +249,10 @@ func (g *grammar) list2(blockID, name, kw, a1, b1, a2, b2 string, multi bool) *s
 		)
 	}
 	s.pos = []position{
-		{name: "first", tmpl: ta},
-		{name: "second", tmpl: tb},
-		{name: "first-after-valid", tmpl: func(tok string) string { return pre + a2 + " " + b2 + "\n" + ta(tok) }},
-		{name: "second-after-valid", tmpl: func(tok string) string { return pre + a2 + " " + b2 + "\n" + tb(tok) }},
+		{name: "first", tmpl: ta, v: a1},
+		{name: "second", tmpl: tb, v: b1},
+		{name: "first-after-valid", tmpl: func(tok string) string { return pre + a2 + " " + b2 + "\n" + ta(tok) }, v: a1},
+		{name: "second-after-valid", tmpl: func(tok string) string { return pre + a2 + " " + b2 + "\n" + tb(tok) }, v: b1},
 	}
 	return g.add(s)
 }
@@ -243,7 +260,7 @@ func (g *grammar) list2(blockID, name, kw, a1, b1, a2, b2 string, multi bool) *s
 // headVal: the opener of a block carries a value (`deliver URL {`, `secret ID {`).
 func (g *grammar) headVal(blockID, name, kw, v string) *slot {
 	t := kwTmpl(kw)
-	return g.add(&slot{block: blockID, name: name, head: true, sp: valueSpellings(t, v), pos: []position{{name: "value", tmpl: t}}})
+	return g.add(&slot{block: blockID, name: name, head: true, sp: valueSpellings(t, v), pos: []position{{name: "value", tmpl: t, v: v}}})
 }
 
 // fixed: a slot whose spellings are given literally.
